@@ -12,7 +12,7 @@
       [paths_unique root]         HYPOTHESIS "no two requirement names share a path" (needed where get returns
                                   the root's requirement list unchanged; see the report);
       [u_fuel], [e_fuel]          explicit sufficient fuels (number of nodes + constant).  *)
-From Dawn Require Import Mvs.Spec Mvs.Proofs_Names Mvs.Proofs_C11.
+From Dawn Require Import Mvs.Spec Mvs.Proofs_Names Mvs.Proofs_C11 Mvs.Proofs_Idem2 Mvs.Proofs_Down.
 
 (** Tidy returns requirements whose build list equals the original one (and both exist) *)
 Theorem tidy_preserves_build_list :
@@ -94,3 +94,96 @@ Theorem names_preserved_new_names_unique :
                exists n, cfg_get c' n = Some x /\ cfg_get (keep_old root newv) n = None).
 Proof. exact Proofs_C11.names_spec. Qed.
 Print Assumptions names_preserved_new_names_unique.
+
+(** ** repeating an operation changes nothing *)
+
+Theorem tidy_idempotent :
+  forall pick U root c',
+    wf_universe U -> wf_reqs (map snd root) -> names_unique root ->
+    apply_op pick U root OpTidy = Ok c' -> apply_op pick U c' OpTidy = Ok c'.
+Proof. exact Proofs_Idem2.tidy_idempotent. Qed.
+Print Assumptions tidy_idempotent.
+
+(** get: HONEST HYPOTHESIS (reported, not hidden): the configuration's build list has the project at the
+    version the query resolves to - i.e. the first application selected the resolved version and the query
+    resolves to the same version again.  Then the repeat is a no-op.  Without it the statement is false:
+    get_idempotent_refuted below (known finding get-downgrade-overshoot), and for "patch" queries of an absent
+    project the repeat resolves differently (known finding get-patch-absent). *)
+Theorem get_idempotent :
+  forall pick U (c' : config) q k bl1 version,
+    Proofs_Names.csorted c' -> paths_unique c' -> wf_reqs (map snd c') -> wf_node version ->
+    build_list pick (e_fuel U (map snd c')) U (map snd c') = Ok bl1 ->
+    resolve_query U bl1 q k = Ok version ->
+    find_path (fst version) bl1 = Some (snd version) ->
+    apply_op pick U c' (OpGet q k) = Ok c'.
+Proof. exact Proofs_Idem2.get_noop_when_selected. Qed.
+Print Assumptions get_idempotent.
+
+(** ... and for latest / version / range / ref queries the repeat does resolve to the same version *)
+Theorem resolve_query_bl_independent :
+  forall U bl bl' q k,
+    match k with QUpgrade | QPatch => False | _ => True end ->
+    resolve_query U bl q k = resolve_query U bl' q k.
+Proof. exact Proofs_Idem2.resolve_query_bl_independent. Qed.
+Print Assumptions resolve_query_bl_independent.
+
+(** F16 in the model: c v1.1.0 requires d v1.1.0, the root holds c v1.2.0 and d v1.0.0; "get c@v1.1.0" cannot
+    reach v1.1.0 without upgrading d, lands on c v1.0.0, and the same get then upgrades to c v1.1.0 *)
+Theorem get_idempotent_refuted :
+  exists U root q k c1 c2,
+    apply_op (fun _ => O) U root (OpGet q k) = Ok c1 /\
+    apply_op (fun _ => O) U c1 (OpGet q k) = Ok c2 /\ c1 <> c2.
+Proof.
+  pose (c := [114; 47; 99]). pose (d := [114; 47; 100]).
+  pose (v := fun x y z => VSem (mkSV x y z [])).
+  exists (mkU [114]
+              [((c, v 1 0 0), 1); ((d, v 1 0 0), 1); ((c, v 1 1 0), 2); ((d, v 1 1 0), 2); ((c, v 1 2 0), 3)]
+              [((c, 1), mkSum [] []); ((c, 2), mkSum [] [(d, v 1 1 0)]); ((c, 3), mkSum [] []);
+               ((d, 1), mkSum [] []); ((d, 2), mkSum [] [])] [] [] []),
+         [([99], (c, v 1 2 0)); ([100], (d, v 1 0 0))], c, (QRange (RExact (v 1 1 0))),
+         [([99], (c, v 1 0 0)); ([100], (d, v 1 0 0))], [([99], (c, v 1 1 0))].
+  split; [vm_compute; reflexivity|]. split; [vm_compute; reflexivity|]. discriminate.
+Qed.
+Print Assumptions get_idempotent_refuted.
+
+(** ** downgrade
+
+    Full statements (NOT proved; kept here as the target):
+      downgrade_at_or_below : get_versions ... = Ok newv in the downgrade branch  ->  the build list of newv has the
+        project absent or at a version <= the resolved one;
+      downgrade_terminates  : mvs_downgrade ... (e_fuel U rr) (l_fuel U) version <> OutOfFuel.
+    Proved: the part of the argument that follows the add/exclude phase, and the fact whose failure was F13.
+    MISSING LEMMA (named [down_list_spec] in Proofs_Down.v): the list returned by the add/exclude/previous phase
+    [down_list] only reaches nodes of the finite node set, none of them above the request, and that phase does not
+    exhaust the fuels (|nodes|+1 for add/exclude, |tags|+3 for the previous-loop).  The correspondence check
+    exercises the whole of mvs.Downgrade against the model on every generated downgrade, with a watchdog. *)
+
+(** Reqs.Previous returns the root itself, "none", or a strictly earlier tagged version of the same path *)
+Theorem previous_strictly_lower :
+  forall U p q,
+    reqs_previous U p = Some q ->
+    q = p \/ (fst q = fst p /\ (snd q = VNone \/ (In q (map fst (u_tags U)) /\ sem_cmp (snd q) (snd p) = Lt))).
+Proof. exact Proofs_Down.previous_strictly_lower. Qed.
+Print Assumptions previous_strictly_lower.
+
+Theorem downgrade_at_or_below_partial :
+  forall required previous pick fuel lfuel (d : node) N final,
+    fst d <> [] -> (length N < fuel)%nat ->
+    Proofs_Down.down_list_spec required previous pick fuel lfuel d N ->
+    mvs_downgrade required previous pick fuel lfuel d = Ok final ->
+    forall v, In (fst d, v) final -> vle v (snd d) = true.
+Proof. exact Proofs_Down.downgrade_at_or_below_partial. Qed.
+Print Assumptions downgrade_at_or_below_partial.
+
+(** if Downgrade runs out of fuel, it is inside the add/exclude/previous phase: the three BuildList phases
+    never exhaust a fuel above the number of nodes *)
+Theorem downgrade_terminates_partial :
+  forall required previous pick fuel lfuel (d : node) N,
+    (length N < fuel)%nat ->
+    (forall n, Proofs_C10.greach required None target n -> In n N) ->
+    (forall dgd n, Proofs_C10.greach (override required target dgd) None target n -> In n N) ->
+    mvs_downgrade required previous pick fuel lfuel d = OutOfFuel ->
+    exists bl, build_list_gen required None pick fuel target = Ok bl /\
+               down_list required previous (down_max (tl bl) d) lfuel fuel fuel (tl bl) (mkD [] [] []) [target] = OutOfFuel.
+Proof. exact Proofs_Down.downgrade_terminates_partial. Qed.
+Print Assumptions downgrade_terminates_partial.
